@@ -290,6 +290,15 @@ def _build(scn, conn, own=None):
     return mz.SolvedMaze(connection_list=conn, solution=sol, **extra)
 
 
+def _build_args_pristine(scn):
+    bo = {}
+    try:
+        _build(scn, np.array(scn["conn"], dtype=bool), bo)
+    except Exception:  # noqa: BLE001
+        pass
+    return bo
+
+
 def _nv_arg(codes, form):
     a = np.array(codes, dtype=float) / 100.0
     if form == "f32":
@@ -308,59 +317,155 @@ def _ul_arg(scn):
 
 
 def observe(scn):
-    """run one scenario on the real code; everything the library does is an outcome"""
+    """run one scenario on the real code; everything the library does is an outcome.
+    Order (CLASS E): build the caller's own argument objects -> snapshot -> construct / add_* / plot() [-> plot() again]
+    -> arguments compared with the snapshot -> to_ascii (strings; needs the maze, which legitimately keeps the caller's
+    connection list) -> arguments compared again -> ALL argument objects overwritten in place -> only then the artists
+    of the figure are read.  The oracle's inputs and the maze's "own" ASCII drawing come from pristine copies."""
     import matplotlib.pyplot as plt
     from matplotlib.quiver import Quiver
 
     from maze_dataset.plotting import MazePlot
+    from maze_dataset.plotting.plot_maze import StyledPath
 
-    conn = np.array(scn["conn"], dtype=bool)
-    R, C = int(conn.shape[1]), int(conn.shape[2])
+    pristine = np.array(scn["conn"], dtype=bool)
+    R, C = int(pristine.shape[1]), int(pristine.shape[2])
     kind = scn["kind"]
     sol = scn["sol"]
     tp, tpset, preds, marks = _expected(scn)
-    pm = dict(kind=kind, R=R, C=C, conn=mz.raw(conn), start=list(sol[0]) if kind == "SolvedMaze" else list(scn["start"]),
+    pm = dict(kind=kind, R=R, C=C, conn=mz.raw(pristine), start=list(sol[0]) if kind == "SolvedMaze" else list(scn["start"]),
               end=list(sol[-1]) if kind == "SolvedMaze" else list(scn["end"]), sol=[list(p) for p in sol] if kind == "SolvedMaze" else [])
     rec = dict(maze=pm, ul=int(scn["ul"]), hasnv=bool(scn["hasnv"]), nv=scn["nv"] if scn["hasnv"] else [], tpset=tpset, tp=tp, preds=preds, marks=marks,
-               res="ok", enc="none", img=[], pats=[], vruns=[], ext=[], origin="", lines=[], quiv=[], asc=[], scn=scn)
+               res="ok", enc="none", img=[], pats=[], vruns=[], ext=[], origin="", lines=[], quiv=[], asc=[], argmod=[], scn=scn)
     holder = {}
+    owned = {}  # name -> the caller's own mutable object
+    snaps = {}
+
+    def snap_new():
+        for k in list(owned):
+            if k not in snaps:
+                snaps[k] = _snap(owned[k])
+
+    def own_path(name, x, kw):
+        owned[name] = x.path if isinstance(x, StyledPath) else x
+        if isinstance(x, StyledPath) and isinstance(x.quiver_kwargs, dict):
+            owned[name + ".quiver_kwargs"] = x.quiver_kwargs
+        if "path_fmt" in kw:
+            owned[name + ".path_fmt"] = vars(kw["path_fmt"])
+        snap_new()
 
     def run():
-        m = _build(scn, conn)
+        conn = _conn_arg(scn)
+        owned["conn"] = conn
+        snap_new()
+        bo = {}
+        m = _build(scn, conn, bo)
+        for k, v in bo.items():  # handed to the constructor already: compared with values rebuilt from the scenario
+            owned[k] = v
+        snaps.update({k: _snap(v) for k, v in _build_args_pristine(scn).items() if k in bo})
         holder["m"] = m
-        mp = MazePlot(m, unit_length=int(scn["ul"]))
+        mp = MazePlot(m, unit_length=_ul_arg(scn))
         holder["mp"] = mp
+        o = scn.get("nvopts") or {}
         if scn["hasnv"]:
-            mp.add_node_values(np.array(scn["nv"], dtype=float) / 100.0, hide_colorbar=bool(scn.get("hide_cbar", False)))
-        for op, style, payload in scn["ops"]:
-            if op == "true":
+            form = scn.get("nvform", "f64")
+            if scn.get("nv_first"):  # cell values supplied twice: the later ones replace the earlier ones (setter semantics, like add_true_path)
+                owned["nv_first"] = _nv_arg([[75 - v for v in row] for row in scn["nv"]], form)
+                snap_new()
+                mp.add_node_values(owned["nv_first"], hide_colorbar=True)
+            owned["nv"] = _nv_arg(scn["nv"], form)
+            kw = dict(hide_colorbar=bool(scn.get("hide_cbar", False)))
+            if o.get("center0"):
+                kw["colormap_center"] = 0.0
+            if o.get("target") is not None:
+                owned["nv.target"] = kw["target_token_coord"] = _pos(o.get("tform", "array"), o["target"])
+            if o.get("prec") is not None:
+                owned["nv.prec"] = kw["preceeding_tokens_coords"] = np.array(o["prec"], dtype=np.int64).reshape(-1, 2) if o.get("tform", "array") != "list" else [tuple(c) for c in o["prec"]]
+            snap_new()
+            mp.add_node_values(owned["nv"], **kw)
+        for i, (op, style, payload) in enumerate(scn["ops"]):
+            if op in ("true", "pred", "pred_twice", "true_and_pred"):
                 x, kw = _path_input(style, payload)
-                mp.add_true_path(x, **kw)
-            elif op == "pred":
-                x, kw = _path_input(style, payload)
-                mp.add_predicted_path(x, **kw)
+                own_path(f"ops[{i}]", x, kw)
+                if op in ("true", "true_and_pred"):
+                    mp.add_true_path(x, **kw)
+                if op in ("pred", "pred_twice", "true_and_pred"):
+                    mp.add_predicted_path(x, **kw)
+                if op == "pred_twice":
+                    mp.add_predicted_path(x, **kw)
             elif op == "multi":
-                mp.add_multiple_paths([_path_input(style, p)[0] for p in payload])
+                xs = [_path_input(style, p)[0] for p in payload]
+                own_path(f"ops[{i}]", xs, {})
+                mp.add_multiple_paths(xs)
             elif op == "mark":
-                mp.mark_coords([(int(a), int(b)) for a, b in payload])
-        if scn.get("own_ax"):
-            fig, ax = plt.subplots()
-            mp.plot(fig_ax=(fig, ax), plain=bool(scn.get("plain", False)))
-        else:
-            mp.plot(plain=bool(scn.get("plain", False)), title="t")
+                xs = [(int(a), int(b)) for a, b in payload]
+                own_path(f"ops[{i}]", xs, {})
+                mp.mark_coords(xs)
+            elif op == "mark_arr":
+                xs = np.array(payload, dtype=np.int64).reshape(-1, 2)
+                own_path(f"ops[{i}]", xs, {})
+                mp.mark_coords(xs)
+        for rep in range(2 if scn.get("replot") else 1):  # CLASS A / F: the same MazePlot plotted twice; the LAST figure is judged
+            if rep:
+                plt.close("all")
+            if scn.get("own_ax"):
+                fig, ax = plt.subplots()
+                mp.plot(fig_ax=(fig, ax), plain=bool(scn.get("plain", False)))
+            elif scn.get("title0"):
+                mp.plot(plain=bool(scn.get("plain", False)))  # default title ""
+            else:
+                mp.plot(plain=bool(scn.get("plain", False)), title="t")
         return mp
+
+    def modified(tag):
+        out = []
+        for k, o in owned.items():
+            try:
+                if k in snaps and _snap(o) != snaps[k]:
+                    out.append(k + tag)
+            except Exception:  # noqa: BLE001
+                out.append(k + tag + ":unreadable")
+        return out
 
     try:
         res, mp = mz.outcome(run)
         rec["res"] = res
+        rec["argmod"] = modified("")
         if res != "ok":
             return rec
+        # ---- ASCII export (only when the plot's true path is a chain of lattice-adjacent cells)
+        exp_true = tp if tpset else (sol if kind == "SolvedMaze" else None)
+        if exp_true is None or _chain(exp_true):
+            drawn = None
+            if not tpset and kind == "TargetedLatticeMaze" and getattr(mp, "true_path", None) is not None:
+                drawn = np.array(mp.true_path.path).copy()
+
+            def own(se, ss):  # the maze's own drawing, of a maze built by the driver from PRISTINE values through the plain constructor
+                if tpset:
+                    return mz.SolvedMaze(connection_list=pristine.copy(), solution=np.array(tp)).as_ascii(show_endpoints=se, show_solution=ss)
+                if drawn is not None:
+                    return mz.SolvedMaze(connection_list=pristine.copy(), solution=drawn.copy()).as_ascii(show_endpoints=se, show_solution=ss)
+                plain = {k: scn[k] for k in ("kind", "start", "end", "sol")}
+                return _build(plain, pristine.copy()).as_ascii(show_endpoints=se, show_solution=ss)
+
+            for se, ss in FLAGS:
+                ra, txt = mz.outcome(lambda: mp.to_ascii(show_endpoints=se, show_solution=ss))
+                ro, otxt = mz.outcome(lambda: own(se, ss))
+                if ra == "ok" and not isinstance(txt, str):
+                    ra = "raise:NotAString"
+                rec["asc"].append(dict(se=se, ss=ss, res=ra, rows=[list(r) for r in txt.split("\n")] if ra == "ok" else [],
+                                       own_res=ro, own=[list(r) for r in otxt.split("\n")] if ro == "ok" and isinstance(otxt, str) else []))
+            rec["argmod"] += [k for k in modified(":to_ascii") if k[: -len(":to_ascii")] not in rec["argmod"]]
+        # ---- the caller overwrites every argument object; the figure must not change any more
+        for o in owned.values():
+            _scramble(o)
         try:
             ax = mp.ax
             ims = list(ax.images)
             codes = _codes(ims[0].get_array()) if len(ims) == 1 else None
             if codes is None:
                 rec["res"] = "raise:NotOneImage"
+                rec["asc"] = []
                 return rec
             _put_image(rec, codes, force_both=bool(scn.get("force_both", False)))
             rec["ext"] = [_h(v) for v in ims[0].get_extent()]
@@ -373,26 +478,8 @@ def observe(scn):
                     rec["quiv"].append({k: [_h(v) for v in np.ravel(np.ma.filled(getattr(col, k), np.nan))] for k in ("X", "Y", "U", "V")})
         except Exception as e:  # noqa: BLE001 - the figure cannot be inspected: an outcome, judged as such
             rec["res"] = "raise:Inspect" + type(e).__name__
+            rec["asc"] = []
             return rec
-        # ---- ASCII export (only when the plot's true path is a chain of lattice-adjacent cells)
-        m = holder["m"]
-        exp_true = tp if tpset else (sol if kind == "SolvedMaze" else None)
-        if exp_true is None or _chain(exp_true):
-
-            def own(se, ss):
-                if tpset:
-                    return mz.SolvedMaze(connection_list=conn, solution=np.array(tp)).as_ascii(show_endpoints=se, show_solution=ss)
-                if kind == "TargetedLatticeMaze" and getattr(mp, "true_path", None) is not None:
-                    return mz.SolvedMaze(connection_list=conn, solution=np.array(mp.true_path.path)).as_ascii(show_endpoints=se, show_solution=ss)
-                return m.as_ascii(show_endpoints=se, show_solution=ss)
-
-            for se, ss in FLAGS:
-                ra, txt = mz.outcome(lambda: mp.to_ascii(show_endpoints=se, show_solution=ss))
-                ro, otxt = mz.outcome(lambda: own(se, ss))
-                if ra == "ok" and not isinstance(txt, str):
-                    ra = "raise:NotAString"
-                rec["asc"].append(dict(se=se, ss=ss, res=ra, rows=[list(r) for r in txt.split("\n")] if ra == "ok" else [],
-                                       own_res=ro, own=[list(r) for r in otxt.split("\n")] if ro == "ok" and isinstance(otxt, str) else []))
         return rec
     finally:
         plt.close("all")
@@ -413,6 +500,20 @@ def _scn(kind, conn, ul, nv=None, start=None, end=None, sol=None, ops=(), src=""
 def _nv_fixed(r, c):
     """distinct exact quarters incl. -1.0 (= the background value), negatives, positives"""
     return [[25 * (3 * (i * c + j) - 4) for j in range(c)] for i in range(r)]
+
+
+def _nv_pattern(mode, r, c):
+    """CLASS C cell values: 'falsy' = 0.0, the default block value 1.0, the background -1.0 and the passage value 0.93 among
+    distinct quarters; 'zeros' = every value 0.0; 'const' = every value 2.5"""
+    if mode == "fixed":
+        return _nv_fixed(r, c)
+    if mode == "zeros":
+        return [[0] * c for _ in range(r)]
+    if mode == "const":
+        return [[250] * c for _ in range(r)]
+    head = [0, 100, -100, 93]
+    flat = [head[i] if i < 4 else 25 * (i + 5) * (1 if i % 2 else -1) for i in range(r * c)]
+    return [flat[i * c : (i + 1) * c] for i in range(r)]
 
 
 def _nv_random(rng, r, c):
@@ -452,8 +553,10 @@ def _rand_shortest(rng, conn, s, t):
     return [list(x) for x in p]
 
 
-LINE_STYLES = ["list", "array", "styled_line", "styled_dash", "fmt", "kw", "array8", "styled_line8"]
-PRED_STYLES = ["list", "array", "styled_quiver", "styled_line", "styled_cmap", "kw", "array8", "styled_quiver8"]
+LINE_STYLES = ["list", "array", "styled_line", "styled_dash", "fmt", "kw", "array8", "styled_line8",
+               "list_lists", "list_np", "list_arrs", "array32", "array_f", "array8_f", "array_view", "styled_view", "fmt_q0", "kw0"]
+PRED_STYLES = ["list", "array", "styled_quiver", "styled_line", "styled_cmap", "kw", "array8", "styled_quiver8",
+               "list_lists", "list_np", "list_arrs", "array32", "array_f", "array8_f", "array_view", "styled_view", "styled_q0", "styled_cmap0", "fmt_q0", "kw0"]
 
 
 def _rand_path(rng, conn, r, c):
@@ -568,8 +671,30 @@ def scenario_random(seed, k, maxn=8):
         u = rng.random()
         e = reach[int(rng.integers(len(reach)))]
         kw = dict(sol=[list(s)] if u < 0.06 else (_rand_walk(rng, conn, s, int(rng.integers(2, 3 * maxn))) if u < 0.35 else _rand_shortest(rng, conn, s, e)))
-    return _scn(kind, conn, ul, nv=_nv_random(rng, r, c) if hasnv else None, ops=_rand_ops(rng, conn, r, c), src=src,
-                plain=bool(rng.random() < 0.3), own_ax=bool(rng.random() < 0.2), hide_cbar=bool(rng.random() < 0.3), force_both=(k % 8 == 0), **kw)
+    scn = _scn(kind, conn, ul, nv=_nv_random(rng, r, c) if hasnv else None, ops=_rand_ops(rng, conn, r, c), src=src,
+               plain=bool(rng.random() < 0.3), own_ax=bool(rng.random() < 0.2), hide_cbar=bool(rng.random() < 0.3), force_both=(k % 8 == 0), **kw)
+    scn.update(_rand_forms(np.random.default_rng([seed, 25, k]), scn, r, c))
+    return scn
+
+
+def _rand_forms(rng, scn, r, c):
+    """CLASSES C / E / F / G on the random figures: memory layout and dtype of the caller's arrays, construction route of the maze,
+    unit length as a numpy integer, cell values supplied twice, marker options with falsy values, the same MazePlot plotted twice"""
+    pick = lambda xs, p0=0.5: xs[0] if rng.random() < p0 else xs[int(rng.integers(len(xs)))]  # noqa: E731
+    d = dict(connform=pick(["c", "fortran", "view"]), ulform=pick(["int", "np64", "np32"]), endform=pick(["array", "tuple", "list", "int8"]),
+             via=pick(["ctor", "factory"] if scn["kind"] != "SolvedMaze" else ["ctor", "factory", "factory_targeted", "ctor_se"]),
+             meta=bool(rng.random() < 0.25), replot=bool(rng.random() < 0.15), title0=bool(rng.random() < 0.5))
+    if scn["hasnv"]:
+        o = {}
+        if rng.random() < 0.25:
+            o["center0"] = True
+        if rng.random() < 0.25:
+            o["target"] = [0, 0] if rng.random() < 0.5 else _rand_cells(rng, r, c, 1)[0]
+        if rng.random() < 0.25:
+            o["prec"] = _rand_cells(rng, r, c, int(rng.integers(0, 3)))
+        o["tform"] = pick(["array", "tuple", "list", "int8"])
+        d.update(nvform=pick(["f64", "f32", "fortran", "view"]), nv_first=bool(rng.random() < 0.15), nvopts=o)
+    return d
 
 
 def observe_random(args):
@@ -620,12 +745,115 @@ def scenario_large_ul(seed, k):
     if rng.random() < 0.3:
         ops.append(["mark", "", [far[0]]])
     return _scn(kind, conn, ul, nv=_nv_random(rng, r, c) if k % 4 == 3 else None, ops=ops, src=f"lul:{seed}:{k}:{gen}:{r}x{c}:ul{ul}",
-                plain=bool(rng.random() < 0.3), hide_cbar=True, **kw)
+                plain=bool(rng.random() < 0.3), hide_cbar=True, ulform=("int", "np64", "int", "np32")[(k // len(LARGE_UL)) % 4], replot=(k % 7 == 3), **kw)
 
 
 def observe_large_ul(args):
     seed, k = args
     return observe(scenario_large_ul(seed, k))
+
+
+# ---- CLASSES C / D / F / G / H, systematically: the shortest paths (0, 1, 2 cells) in EVERY input representation / format option,
+# on oblong grids (sides differing by >= 2, both orientations) without any / with every / with tree connections, x three kinds
+# (length-1 and length-2 solutions, start == end), x falsy cell values, layouts, construction routes, replot.
+# Every third repetition uses a shape with a side of 1: outside the quantifier, judged as Layer M (M:outside_grid_sizes:*).
+EDGE_SHAPES = [(2, 5), (5, 2), (3, 7), (7, 3), (2, 2), (8, 2), (2, 8), (4, 4)]
+DEGEN_SHAPES = [(1, 1), (1, 2), (2, 1), (1, 5), (5, 1), (1, 8)]
+EDGE_PRED = [(st, n) for st in PRED_STYLES for n in (0, 1, 2)]
+EDGE_TRUE = [(st, n) for st in LINE_STYLES for n in (1, 2)]
+EDGE_EXTRA = [("mark", "", 1), ("mark_arr", "", 2), ("mark", "", 0), ("mark_arr", "", 0), ("pred_twice", "list", 1), ("pred_twice", "array", 2), ("pred_twice", "styled_quiver", 1),
+              ("pred_twice", "styled_line", 2), ("true_and_pred", "array", 1), ("true_and_pred", "styled_line", 2), ("true_and_pred", "list", 2),
+              ("multi", "list", 0), ("multi", "array", 1), ("multi", "list_lists", 2), ("multi", "styled_q0", 0), ("multi", "array_view", 1)]
+N_EDGE = len(EDGE_PRED)
+
+
+def _full_conn(r, c):
+    conn = np.ones((2, r, c), dtype=bool)
+    conn[0, -1, :] = False
+    conn[1, :, -1] = False
+    return conn
+
+
+def scenario_edge(seed, k):
+    rng = np.random.default_rng([seed, 24, k])
+    j, rep = k % N_EDGE, k // N_EDGE
+    degenerate = rep % 3 == 2
+    shapes = DEGEN_SHAPES if degenerate else EDGE_SHAPES
+    r, c = shapes[(j + rep) % len(shapes)]
+    ctype = ("tree", "none", "all")[(j + rep // 3) % 3]
+    if ctype == "none":
+        conn = np.zeros((2, r, c), dtype=bool)
+    elif ctype == "all":
+        conn = _full_conn(r, c)
+    else:
+        try:
+            conn = np.array(_gen_conn(rng, "dfs", r, c), dtype=bool)
+            assert conn.shape == (2, r, c)
+        except Exception:  # noqa: BLE001
+            ctype = "tree!"
+            conn = mz.rand_conn(rng, r, c, 0.6)
+        conn[0, -1, :] = False
+        conn[1, :, -1] = False
+    corners = [(0, 0), (r - 1, c - 1), (0, c - 1), (r - 1, 0)]
+
+    def short(n, i):
+        """0, 1 or 2 cells starting in a corner (the first corner is cell (0, 0)); the second cell is a connected neighbour if there is one"""
+        a = corners[i % 4]
+        if n == 0:
+            return []
+        if n == 1:
+            return [list(a)]
+        nb = mz.nbrs(conn, a) or [b for b in [(a[0] + 1, a[1]), (a[0] - 1, a[1]), (a[0], a[1] + 1), (a[0], a[1] - 1)] if 0 <= b[0] < r and 0 <= b[1] < c] or [a]
+        return [list(a), list(nb[(i // 4) % len(nb)])]
+
+    kind = KINDS[(j // 3 + rep) % 3]
+    a = corners[j % 4]
+    reach = mz.bfs(conn, a)
+    far = max(reach, key=lambda x: (abs(x[0] - a[0]) + abs(x[1] - a[1]), x))
+    kw = {}
+    if kind == "TargetedLatticeMaze":
+        kw = dict(start=a, end=[a, tuple(short(2, j)[1]), far][(j + rep) % 3])
+    elif kind == "SolvedMaze":
+        kw = dict(sol=[short(1, j), short(2, j), _rand_shortest(rng, conn, a, far)][(j + rep) % 3])
+    ops = []
+    if j < len(EDGE_TRUE) and (kind == "LatticeMaze" or (j + rep) % 2 == 0):
+        st, n = EDGE_TRUE[(j + 7 * rep) % len(EDGE_TRUE)]
+        ops.append(["true", st, short(n, j + 1)])
+    st, n = EDGE_PRED[j]
+    ops.append(["pred", st, short(n, j + 2 + rep)])
+    if j % 3 == 0:
+        op, st, n = EDGE_EXTRA[(j // 3 + rep) % len(EDGE_EXTRA)]
+        if op in ("mark", "mark_arr"):
+            ops.append([op, "", [list(corners[0])] * n])  # n = 2: the same cell marked twice
+        elif op == "multi":
+            ops.append([op, st, [short(n, j), short(1, j + 1), short(2, j + 3)]])
+        else:
+            ops.append([op, st, short(n, j + 3)])
+    nvmode = (None, "falsy", None, "zeros", "fixed", "const")[(j + rep) % 6]
+    opts = dict(connform=("c", "fortran", "view")[(j // 2) % 3], ulform=("int", "np64", "np32")[(j // 3) % 3], endform=("array", "tuple", "list", "int8")[(j // 4) % 4],
+                via=("ctor", "factory")[j % 2] if kind != "SolvedMaze" else ("ctor", "factory", "factory_targeted", "ctor_se")[j % 4], meta=(j % 3 == 1),
+                replot=(j % 4 == 2), title0=(j % 2 == 0), plain=(j % 5 == 0), own_ax=(j % 7 == 3), hide_cbar=(j % 3 != 0), force_both=True)
+    if nvmode is not None:
+        o = dict(tform=("array", "tuple", "list", "int8")[(j // 5) % 4])
+        if j % 4 == 1 and nvmode != "zeros":  # (all-zero values with colormap_center=0.0: matplotlib's TwoSlopeNorm refuses vmin == vcenter == vmax - colours are not in the statement)
+            o["center0"] = True
+        if j % 5 == 2:
+            o["target"] = [0, 0]
+        if j % 5 == 3:
+            o["prec"] = []
+        if j % 5 == 4:
+            o["prec"] = [[0, 0], [r - 1, c - 1]]
+        opts.update(nvform=("f64", "f32", "fortran", "view")[(j // 6) % 4], nv_first=((j // 2) % 4 == 1), nvopts=o)
+    nv = _nv_pattern(nvmode, r, c) if nvmode else None
+    if nv is not None and opts["nvform"] == "f32":  # 0.93 is not a float32: the value supplied would not be the value logged
+        nv = [[75 if v == 93 else v for v in row] for row in nv]
+    return _scn(kind, conn, (3, 4, 5)[(j + rep) % 3], nv=nv, ops=ops,
+                src=f"edge:{seed}:{k}:{ctype}:{r}x{c}" + (":outside" if degenerate else ""), **opts, **kw)
+
+
+def observe_edge(args):
+    seed, k = args
+    return observe(scenario_edge(seed, k))
 
 
 # ------------------------------------------------------------------ canaries (hand-made records)
@@ -651,7 +879,7 @@ def _asc(rows_tt, rows_tf, rows_ff):
 def _hand(kind, art, table, hasnv, lines, quiv, asc, start=(), end=(), sol=(), preds=(), marks=(), tp=None):
     rec = dict(maze=dict(kind=kind, R=2, C=3, conn=_cp(_CONN_A), start=list(start), end=list(end), sol=[list(p) for p in sol]), ul=3, hasnv=hasnv,
                nv=[[-100, -25, 50], [125, 200, 275]] if hasnv else [], tpset=tp is not None, tp=tp or [], preds=[list(map(list, p)) for p in preds], marks=[list(p) for p in marks],
-               res="ok", enc="none", img=[], pats=[], vruns=[], ext=[-1, 19, 13, -1], origin="upper", lines=lines, quiv=quiv, asc=asc, scn={"src": "hand-made"})
+               res="ok", enc="none", img=[], pats=[], vruns=[], ext=[-1, 19, 13, -1], origin="upper", lines=lines, quiv=quiv, asc=asc, argmod=[], scn={"src": "hand-made"})
     _put_image(rec, np.array([[table[ch] for ch in row] for row in art]))
     return rec
 
@@ -672,7 +900,7 @@ def hand_made():
     lt = _hand("LatticeMaze", _ART_PLAIN, _PLAIN, False,
                [_ln("--", "None", (15, 9), (3, 3)), _ln("None", "o", (15, 9)), _ln("None", "x", (3, 3)), _ln("None", "o", (9, 9)), _ln("None", "x", (9, 9)),
                 _ln("-", "None", (3, 9), (3, 3), (9, 3)), _ln("None", "o", (3, 9)), _ln("None", "x", (9, 3))],
-               [dict(X=[], Y=[], U=[], V=[])], [], tp=[[1, 2], [0, 0]], preds=[[(1, 1)], [(1, 0), (0, 0), (0, 1)]])
+               [dict(X=[], Y=[], U=[], V=[])], [], tp=[[1, 2], [0, 0]], preds=[[(1, 1)], [(1, 0), (0, 0), (0, 1)], []])  # the last predicted path is EMPTY: nothing drawn
     rl = _cp(sv)
     rl.update(enc="rle", img=[])
     nvr = _cp(nv)
@@ -680,7 +908,11 @@ def hand_made():
     dis = _hand("TargetedLatticeMaze", _ART_PLAIN, _PLAIN, False, [], [], [], start=(0, 0), end=(1, 1))
     dis["maze"]["conn"] = [[[0, 0, 0], [0, 0, 0]], [[0, 0, 0], [0, 0, 0]]]
     dis.update(res="raise:ValueError", enc="none", img=[], pats=[], vruns=[], ext=[], origin="")
-    return dict(sv=sv, nv=nv, tg=tg, lt=lt, rl=rl, nvr=nvr, dis=dis)
+    # a 1 x 2 maze (outside the quantifier): one passage, no paths
+    dg = _hand("LatticeMaze", ["#######", "#..+..#", "#..+..#", "#######"], _PLAIN, False, [], [], _asc(["#####", "#   #", "#####"], ["#####", "#   #", "#####"], ["#####", "#   #", "#####"]))
+    dg["maze"].update(R=1, C=2, conn=[[[0, 0]], [[1, 0]]])
+    dg["ext"] = [-1, 13, 7, -1]
+    return dict(sv=sv, nv=nv, tg=tg, lt=lt, rl=rl, nvr=nvr, dis=dis, dg=dg)
 
 
 def make_canaries():
@@ -793,6 +1025,16 @@ def make_canaries():
     add("tg", "plot_raises", lambda y: y.update(res="raise:ValueError"))  # solvable targeted maze refused
     add("sv", "X:rle_disagrees_with_raw", lambda y: y["pats"][1][1].__setitem__(0, -100))
     add("rl", "X:rle_malformed", lambda y: y["vruns"][1].__setitem__(1, 2))
+    add("lt", "path_polylines", lambda y: y["lines"].append(_ln("-", "None", (3, 3), (9, 3))))  # something drawn for the empty path
+    add("lt", "marker_off_listed_cells", lambda y: y["lines"].append(_ln("None", "o", (15, 3))))
+    add("sv", "M:argument_modified", lambda y: y.update(argmod=["conn"]))
+    add("dis", "M:argument_modified", lambda y: y.update(argmod=["start"]))
+    add("dg", "M:outside_grid_sizes:cell_blocks", px(1, 1, -100))
+    add("dg", "M:outside_grid_sizes:connected_strip_not_passage", px(2, 3, -100))
+    add("dg", "M:outside_grid_sizes:image_size", lambda y: _put_image(y, np.array(y["img"]).T))
+    add("dg", "M:outside_grid_sizes:plot_raises", lambda y: y.update(res="raise:IndexError"))
+    add("dg", "M:outside_grid_sizes:M:argument_modified", lambda y: y.update(argmod=["conn"]))
+    add("dg", "X:rle_disagrees_with_raw", lambda y: y["pats"][1][1].__setitem__(0, -100))
     add("nv", "M:input_malformed", lambda y: y["nv"].pop())
     add("lt", "M:input_malformed", lambda y: y["tp"].append([2, 0]))
     return cans
@@ -836,7 +1078,7 @@ class _Guard:
 
 
 def _case(x):
-    d = {k: x[k] for k in ("scn", "res", "ext", "origin", "lines", "quiv", "asc")}
+    d = {k: x[k] for k in ("scn", "res", "ext", "origin", "lines", "quiv", "asc", "argmod")}
     if x["enc"] in ("raw", "both") and len(x["img"]) * (len(x["img"][0]) if x["img"] else 0) <= 260:
         d["img"] = x["img"]
     return d
@@ -849,6 +1091,9 @@ def _nontrivial(x):
     return x["res"] == "ok" and 0 < ne < total and m["R"] * m["C"] >= 4
 
 
+_OPT_KEYS = ("connform", "ulform", "endform", "via", "meta", "replot", "title0", "plain", "own_ax", "hide_cbar", "nvform", "nv_first", "nvopts")
+
+
 def _judge_batch(chk, guard, recs, label, what):
     lib.judge_with_canaries(guard, "Trace_Plot", recs, make_canaries(), label=label, what=what, case_of=_case)
     if any(c == "M:input_malformed" for c, _ in chk.divergences):
@@ -856,9 +1101,17 @@ def _judge_batch(chk, guard, recs, label, what):
     st = chk.notes["records"]
     for x in recs:
         s = x["scn"]
-        chk.count([s["src"], s["kind"], s["start"], s["end"], s["sol"], s["ul"], s["hasnv"], s["ops"]], _nontrivial(x))
+        chk.count([s["src"], s["kind"], s["start"], s["end"], s["sol"], s["ul"], s["hasnv"], s["nv"], s["ops"], {k: s[k] for k in _OPT_KEYS if k in s}], _nontrivial(x))
         for key in (x["maze"]["kind"], "cell_values" if x["hasnv"] else "plain", "ul=%d" % x["ul"], "res=" + x["res"], "enc=" + x["enc"],
-                    "oblong" if x["maze"]["R"] != x["maze"]["C"] else "square", "ascii_judged" if x["asc"] else "ascii_skipped"):
+                    "oblong" if x["maze"]["R"] != x["maze"]["C"] else "square", "ascii_judged" if x["asc"] else "ascii_skipped",
+                    *(["side_1(outside quantifier, Layer M)"] if min(x["maze"]["R"], x["maze"]["C"]) < 2 else []), *(["sides_differ_by>=2"] if abs(x["maze"]["R"] - x["maze"]["C"]) >= 2 else []),
+                    *(["replotted"] if s.get("replot") else []), *(["cell_values_supplied_twice"] if s.get("nv_first") and x["hasnv"] else []),
+                    *(["cell_value_0.0"] if x["hasnv"] and any(v == 0 for row in x["nv"] for v in row) else []),
+                    *(["empty_predicted_path"] if any(len(q) == 0 for q in x["preds"]) else []), *(["one_cell_path"] if any(len(q) == 1 for q in x["preds"] + ([x["tp"]] if x["tpset"] else [])) else []),
+                    *(["one_cell_solution"] if len(x["maze"]["sol"]) == 1 else []), *(["no_connection"] if x["maze"]["R"] * x["maze"]["C"] > 1 and not np.any(np.array(x["maze"]["conn"])) else []),
+                    *(["conn_" + s["connform"]] if s.get("connform", "c") != "c" else []), *(["via_" + s["via"]] if s.get("via", "ctor") != "ctor" else []),
+                    *(["ul_" + s["ulform"]] if s.get("ulform", "int") != "int" else []), *(["nv_" + s["nvform"]] if x["hasnv"] and s.get("nvform", "f64") != "f64" else []),
+                    *(["arguments_modified"] if x["argmod"] else [])):
             st[key] = st.get(key, 0) + 1
         st["polylines"] = st.get("polylines", 0) + sum(1 for a in x["lines"] if a["ls"] != "None" and len(a["pts"]) >= 2) + sum(1 for q in x["quiv"] if q["X"])
         st["pixels"] = st.get("pixels", 0) + (sum(v[2] for v in x["vruns"]) * sum(r[2] for r in x["pats"][0]) if x["pats"] else 0)
@@ -929,6 +1182,12 @@ def main(chk: lib.Check) -> int:
     _judge_batch(chk, guard, recs, "lul", "unit lengths 18..256 with ul*(n-1) around 127 / 255 on grids 2..8: image through the run-length encoding, paths given as list / int64 / int8 arrays / StyledPath reaching the last row and column")
     chk.notes["large_unit_length_figures"] = nlarge
     chk.notes["large_unit_lengths"] = sorted({u for _n, u in LARGE_UL})
+    # ---- (C) shortest paths x every input representation / option, oblong + degenerate shapes, falsy cell values, argument aliasing
+    nedge = N_EDGE * (18 if thorough else 3)
+    recs = lib.pmap(observe_edge, [(chk.seed, k) for k in range(nedge)], chunksize=4)
+    _judge_batch(chk, guard, recs, "edge", "paths of 0 / 1 / 2 cells in every input representation and format option on 2x5, 5x2, 3x7, 7x3, 8x2, 2x8 (no / every / tree connections), "
+                 "one- and two-cell solutions, falsy cell values (0.0, all zero, constant), layouts / dtypes / construction routes, replot; every third repetition on 1x1, 1xN, Nx1 (Layer M)")
+    chk.notes["edge_family_figures"] = nedge
     chk.notes["rejected_record_groups"] = {"|".join(map(str, k)): v for k, v in sorted(guard.seen.items(), key=str)}
     chk.notes["layer_M_findings"] = (
         "M:ascii_export_flags: MazePlot(LatticeMaze).to_ascii(show_endpoints=False, show_solution=False) raises ValueError "
